@@ -30,9 +30,10 @@ func init() {
 			"pending Iter (callback sees exactly the pending entries; IterActionUpdateDataplane moves exactly that key into the dataplane view with the pending value; any other result changes nothing), Len of every view; the other view is unchanged and the second key is untouched. " +
 			"(C18.views) every view accessor returns the receiver itself; no composite literal or dereference copy of a tracker/view type outside New. (C18.noalias) no method returns an internal map or hands it to a callback or foreign function. " +
 			"(C18.batched) the two IterBatched loops only clear/move keys that came from ranging the pending map, pair delete(U,k) with A[k]=v for the same index, and stop at the callback's applied count. " +
+			"(C18.lockstep) the keys slice and the values slice of the batched update iterator are index-aligned wherever they are used as parallel (callback call, recording vs[i] under ks[i]): on every path they went through the same make/append/re-slice steps with equal counts and bounds. " +
 			"(C18.apply) CachingMap's apply callbacks report IterActionUpdateDataplane only on paths where the dataplane write returned no error (or not-exists for deletes).",
 		NotDecided: "Reachable-history equality as such (this is the inductive step over an abstract state, not a run of histories); behaviour when a callback re-enters the tracker during Iter/ReplaceAllIter or when a replace iterator yields the same key twice (both assumed away; a duplicate key would put the key in both A and B); " +
-			"value aliasing after callers mutate stored values; index arithmetic of the IterBatched batching windows (ks/vs slicing, count bookkeeping); that IterActionNoOpStopIteration actually stops (it does not: 'break' leaves the switch only - harmless for this property); behaviour of felix users of the tracker.",
+			"value aliasing after callers mutate stored values; index arithmetic of the IterBatched batching windows beyond the ks/vs alignment (that count equals len(ks), that the window skips exactly the erred item); that IterActionNoOpStopIteration actually stops (it does not: 'break' leaves the switch only - harmless for this property); behaviour of felix users of the tracker.",
 		Assumptions: []string{
 			"go/types + go/ssa (x/tools v0.50.0) model of the current source, CGO_ENABLED=0 build",
 			"Go map semantics: range yields each present key once, deleting during range is allowed",
@@ -82,6 +83,10 @@ func init() {
 				Old: "\t\t\tdelete(c.desiredUpdates, ks[i])\n\t\t\tc.inDataplaneAndDesired[ks[i]] = vs[i]\n\t\t}\n\n\t\tif err != nil {\n\t\t\tapplied++ // skip over the item that erred\n\t\t}\n\n\t\tks = ks[applied:]\n\t\tvs = vs[applied:]", New: "\t\t\tdelete(c.desiredUpdates, ks[i])\n\t\t}\n\n\t\tif err != nil {\n\t\t\tapplied++ // skip over the item that erred\n\t\t}\n\n\t\tks = ks[applied:]\n\t\tvs = vs[applied:]", Expect: "C18.batched/PendingUpdatesView.IterBatched/pair"},
 			{Name: "batched deletions collect keys from the wrong map", File: "felix/deltatracker/delta_tracker.go",
 				Old: "\tfor k := range c.inDataplaneNotDesired {\n\t\tks = append(ks, k)", New: "\tfor k := range c.inDataplaneAndDesired {\n\t\tks = append(ks, k)", Expect: "C18.batched/PendingDeletionsView.IterBatched/origin"},
+			{Name: "full-batch reset empties the keys but keeps the previous batch's values", File: "felix/deltatracker/delta_tracker.go",
+				Old: "\t\t\t\t\tks = ks[:0]\n\t\t\t\t\tvs = vs[:0]\n", New: "\t\t\t\t\tks = ks[:0]\n", Expect: "C18.lockstep/PendingUpdatesView.IterBatched/callback"},
+			{Name: "tail loop skips the erred key but not its value", File: "felix/deltatracker/delta_tracker.go",
+				Old: "\t\tks = ks[applied:]\n\t\tvs = vs[applied:]\n\t\tcount -= applied", New: "\t\tks = ks[applied:]\n\t\tif err == nil {\n\t\t\tvs = vs[applied:]\n\t\t} else {\n\t\t\tvs = vs[applied-1:]\n\t\t}\n\t\tcount -= applied", Expect: "C18.lockstep/PendingUpdatesView.IterBatched/apply#2"},
 			{Name: "caching map records a failed update as applied", File: "felix/cachingmap/caching_map.go",
 				Old: "\t\t\t\terrs = append(errs, err)\n\t\t\t\treturn deltatracker.IterActionNoOp\n\t\t\t}\n\t\t\treturn deltatracker.IterActionUpdateDataplane\n\t\t})\n\t}\n\n\tif len(errs) > 0 {\n\t\treturn errs\n\t}\n\treturn nil\n}\n\n// ApplyDeletionsOnly", New: "\t\t\t\terrs = append(errs, err)\n\t\t\t}\n\t\t\treturn deltatracker.IterActionUpdateDataplane\n\t\t})\n\t}\n\n\tif len(errs) > 0 {\n\t\treturn errs\n\t}\n\treturn nil\n}\n\n// ApplyDeletionsOnly", Expect: "C18.apply/ApplyUpdatesOnly"},
 		},
@@ -262,6 +267,7 @@ func runC18(c *Ctx) {
 	c.Rule("C18.views", "symexec+AST", "view accessors return the receiver pointer itself (conversion, no copy); no composite literal or dereference copy of a tracker/view type outside the constructor (thorough tier: also in every felix importer of the package)", 16)
 	c.Rule("C18.noalias", "symexec", "no method returns an internal map or passes internal state to a callback or foreign function", 54)
 	c.Rule("C18.batched", "ssa", "IterBatched only clears/moves keys that were collected by ranging the pending map, pairs delete(desiredUpdates,k) with inDataplaneAndDesired[k]=v at the same index, and is bounded by the callback's applied count", 8)
+	c.Rule("C18.lockstep", "E-PAIR", "parallel batch slices stay index-aligned: wherever IterBatched hands two slices to the callback, or records slice element ys[i] under key xs[i], the two slices were built by the same sequence of make/append/re-slice steps with equal lengths, counts and bounds on every path (lockstep bisimulation over the SSA def chains, loop phis coinductively)", 4)
 	c.Rule("C18.apply", "guard", "CachingMap apply callbacks return IterActionUpdateDataplane only where the dataplane write's error is nil (or not-exists for deletes)", 2)
 
 	// ---- anchors
@@ -435,6 +441,7 @@ func runC18(c *Ctx) {
 	for _, m := range methods {
 		if m.kind == "batched" {
 			c18Batched(c, p, m, nm)
+			c18Lockstep(c, p, m)
 			continue
 		}
 		c18RunMethod(c, p, sp, m, nm, resultVals, updateConst)
@@ -910,6 +917,10 @@ func c18SliceElems(v ssa.Value, seen map[ssa.Value]bool, out *[]ssa.Value, bad *
 	case *ssa.Slice:
 		c18SliceElems(x.X, seen, out, bad)
 	case *ssa.MakeSlice:
+	case *ssa.Const:
+		if x.Value != nil {
+			*bad = append(*bad, "slice of unmodelled constant origin")
+		} // nil slice: holds no elements
 	case *ssa.Call:
 		if b, ok := x.Call.Value.(*ssa.Builtin); ok && b.Name() == "append" && len(x.Call.Args) == 2 {
 			c18SliceElems(x.Call.Args[0], seen, out, bad)
@@ -1344,4 +1355,361 @@ func c18ConstResults(v ssa.Value) []*ssa.Const {
 		return out
 	}
 	return []*ssa.Const{nil}
+}
+
+// --------------------------------------------------------------- lockstep --
+
+// c18Lockstep: the batched iterators keep keys and values in two parallel slices.  The
+// callback is told "ks[i] goes with vs[i]", and the tracker afterwards records vs[i] as the
+// dataplane value of ks[i]: both are only right while the two slices are index-aligned.
+// Decided structurally: at every site that uses two slices as parallel (callback call with
+// >=2 slice arguments; map store m[xs[i]] = ys[i]) the two SSA values must be related by a
+// lockstep bisimulation: both fresh with the same length, both the append of the same
+// number of elements to aligned slices, both re-slices of aligned slices with equal
+// bounds, or phis whose incoming values are aligned edge by edge (assumed while checking:
+// greatest fixpoint).  Re-slicing / appending / resetting only one of them, or with
+// different bounds, on any path breaks the relation.
+func c18Lockstep(c *Ctx, p *Prog, m c18Method) {
+	fn := m.fn
+	id := m.id()
+	type siteT struct {
+		kind string
+		a, b ssa.Value
+		in   ssa.Instruction
+	}
+	var sites []siteT
+	isSlice := func(v ssa.Value) bool {
+		_, ok := v.Type().Underlying().(*types.Slice)
+		return ok
+	}
+	allInstrs(fn, true, func(f *ssa.Function, in ssa.Instruction) {
+		switch x := in.(type) {
+		case *ssa.Call:
+			if _, isParam := x.Call.Value.(*ssa.Parameter); !isParam || x.Call.IsInvoke() {
+				return
+			}
+			var sl []ssa.Value
+			for _, a := range x.Call.Args {
+				if isSlice(a) {
+					sl = append(sl, a)
+				}
+			}
+			for i := 1; i < len(sl); i++ {
+				sites = append(sites, siteT{"callback", sl[0], sl[i], in})
+			}
+		case *ssa.MapUpdate:
+			k, v := c18ElemOf(x.Key), c18ElemOf(x.Value)
+			if k.slice != nil && v.slice != nil && k.slice != v.slice && isSlice(k.slice) && isSlice(v.slice) {
+				sites = append(sites, siteT{"apply", k.slice, v.slice, in})
+				if k.index != v.index {
+					ls := &c18Ls{p: p}
+					if !ls.eqVal(k.index, v.index) {
+						c.Violate("C18.lockstep/"+id+"/apply", p.Pos(in.Pos()), "%s stores %s under key %s: different indices into the parallel slices", id, ls.show(x.Value), ls.show(x.Key))
+					}
+				}
+			}
+		}
+	})
+	for _, s := range sites {
+		key := "C18.lockstep/" + id + "/" + s.kind
+		ls := &c18Ls{p: p, assumed: map[[2]ssa.Value]bool{}}
+		switch ls.aligned(s.a, s.b) {
+		case c18LsYes:
+			c.Ok(key, p.Pos(s.in.Pos()), "%s and %s are built in lockstep (%d value pairs related)", ls.show(s.a), ls.show(s.b), len(ls.assumed))
+		case c18LsNo:
+			c.Violate(key, p.Pos(s.in.Pos()), "%s uses %s and %s as parallel slices (element i of one belongs to element i of the other) but they are not transformed in lockstep: %s — after that path the keys and values are out of step, so a key is applied to the dataplane and recorded with another key's value", id, ls.show(s.a), ls.show(s.b), ls.why)
+		default:
+			c.Undecided(key, p.Pos(s.in.Pos()), "cannot relate %s and %s: %s", ls.show(s.a), ls.show(s.b), ls.why)
+		}
+	}
+}
+
+const (
+	c18LsYes = iota
+	c18LsNo
+	c18LsUnknown
+)
+
+type c18Ls struct {
+	p       *Prog
+	assumed map[[2]ssa.Value]bool
+	why     string
+}
+
+func (l *c18Ls) fail(res int, format string, a ...any) int {
+	if l.why == "" {
+		l.why = fmt.Sprintf(format, a...)
+	}
+	return res
+}
+
+func (l *c18Ls) show(v ssa.Value) string {
+	switch x := v.(type) {
+	case nil:
+		return ""
+	case *ssa.Phi:
+		if x.Comment != "" {
+			return x.Comment
+		}
+	case *ssa.Const:
+		if x.Value == nil {
+			return "nil"
+		}
+		return x.Value.ExactString()
+	case *ssa.Slice:
+		s := l.show(x.X) + "[" + l.show(x.Low) + ":" + l.show(x.High)
+		if x.Max != nil {
+			s += ":" + l.show(x.Max)
+		}
+		return s + "]"
+	case *ssa.BinOp:
+		return l.show(x.X) + x.Op.String() + l.show(x.Y)
+	case *ssa.MakeSlice:
+		return "make(" + l.show(x.Len) + ")"
+	case *ssa.UnOp:
+		if x.Op == token.MUL {
+			return l.show(x.X)
+		}
+	case *ssa.IndexAddr:
+		return l.show(x.X) + "[" + l.show(x.Index) + "]"
+	case *ssa.Extract:
+		return fmt.Sprintf("result %d of %s", x.Index, l.show(x.Tuple))
+	case *ssa.Call:
+		if b, ok := x.Call.Value.(*ssa.Builtin); ok {
+			var as []string
+			for _, a := range x.Call.Args {
+				as = append(as, l.show(a))
+			}
+			return b.Name() + "(" + strings.Join(as, ",") + ")"
+		}
+		if prm, ok := x.Call.Value.(*ssa.Parameter); ok {
+			return prm.Name() + "(..)"
+		}
+	case *ssa.Parameter:
+		return x.Name()
+	}
+	return v.Name()
+}
+
+func (l *c18Ls) at(v ssa.Value) string {
+	if in, ok := v.(ssa.Instruction); ok && in.Pos().IsValid() {
+		return " (" + l.p.Pos(in.Pos()) + ")"
+	}
+	return ""
+}
+
+// aligned: do a and b always have the same length with element i of a belonging to
+// element i of b?
+func (l *c18Ls) aligned(a, b ssa.Value) int {
+	if a == b {
+		return c18LsYes
+	}
+	k := [2]ssa.Value{a, b}
+	if l.assumed[k] {
+		return c18LsYes
+	}
+	l.assumed[k] = true
+	pa, aPhi := a.(*ssa.Phi)
+	pb, bPhi := b.(*ssa.Phi)
+	switch {
+	case aPhi && bPhi && pa.Block() == pb.Block():
+		for i := range pa.Edges {
+			if r := l.aligned(pa.Edges[i], pb.Edges[i]); r != c18LsYes {
+				return r
+			}
+		}
+		return c18LsYes
+	case aPhi && c18LsDefDominates(b, pa.Block()):
+		// b is one value on every way into a's block: each incoming a must be aligned with it
+		for _, e := range pa.Edges {
+			if r := l.aligned(e, b); r != c18LsYes {
+				return r
+			}
+		}
+		return c18LsYes
+	case bPhi && c18LsDefDominates(a, pb.Block()):
+		for _, e := range pb.Edges {
+			if r := l.aligned(a, e); r != c18LsYes {
+				return r
+			}
+		}
+		return c18LsYes
+	case aPhi:
+		for _, e := range pa.Edges {
+			if r := l.aligned(e, b); r != c18LsYes {
+				return r
+			}
+		}
+		return c18LsYes
+	}
+	switch x := a.(type) {
+	case *ssa.MakeSlice:
+		y, ok := b.(*ssa.MakeSlice)
+		if !ok {
+			return l.mismatch(a, b)
+		}
+		if !l.eqVal(x.Len, y.Len) {
+			return l.fail(c18LsNo, "%s%s and %s%s start with different lengths", l.show(a), l.at(a), l.show(b), l.at(b))
+		}
+		return c18LsYes
+	case *ssa.Slice:
+		y, ok := b.(*ssa.Slice)
+		if !ok {
+			return l.mismatch(a, b)
+		}
+		if !l.eqBound(x.Low, y.Low, nil, nil) {
+			return l.fail(c18LsNo, "one side is re-sliced as %s%s where the other is re-sliced as %s%s (different low bounds)", l.show(a), l.at(a), l.show(b), l.at(b))
+		}
+		if !l.eqBound(x.High, y.High, x.X, y.X) {
+			return l.fail(c18LsNo, "one side is re-sliced as %s%s where the other is re-sliced as %s%s (different high bounds)", l.show(a), l.at(a), l.show(b), l.at(b))
+		}
+		return l.aligned(x.X, y.X)
+	case *ssa.Call:
+		y, ok := b.(*ssa.Call)
+		xa, xok := c18LsAppend(x)
+		if !xok {
+			return l.fail(c18LsUnknown, "%s%s is produced by a call that is not modelled", l.show(a), l.at(a))
+		}
+		if !ok {
+			return l.mismatch(a, b)
+		}
+		ya, yok := c18LsAppend(y)
+		if !yok {
+			return l.fail(c18LsUnknown, "%s%s is produced by a call that is not modelled", l.show(b), l.at(b))
+		}
+		nx, okx := c18LsAppendCount(xa[1])
+		ny, oky := c18LsAppendCount(ya[1])
+		switch {
+		case okx && oky && nx != ny:
+			return l.fail(c18LsNo, "%d element(s) appended to one side%s, %d to the other%s", nx, l.at(a), ny, l.at(b))
+		case !okx || !oky:
+			if r := l.aligned(xa[1], ya[1]); r != c18LsYes { // append(xs, more...) / append(ys, more2...)
+				return r
+			}
+		}
+		return l.aligned(xa[0], ya[0])
+	case *ssa.Const:
+		if y, ok := b.(*ssa.Const); ok && x.Value == nil && y.Value == nil {
+			return c18LsYes
+		}
+		return l.mismatch(a, b)
+	}
+	return l.fail(c18LsUnknown, "%s%s (%T) is not a make/append/re-slice/phi", l.show(a), l.at(a), a)
+}
+
+func (l *c18Ls) mismatch(a, b ssa.Value) int {
+	switch b.(type) {
+	case *ssa.MakeSlice, *ssa.Slice, *ssa.Const, *ssa.Phi:
+	case *ssa.Call:
+		if _, ok := c18LsAppend(b.(*ssa.Call)); !ok {
+			return l.fail(c18LsUnknown, "%s%s is produced by a call that is not modelled", l.show(b), l.at(b))
+		}
+	default:
+		return l.fail(c18LsUnknown, "%s%s (%T) is not a make/append/re-slice/phi", l.show(b), l.at(b), b)
+	}
+	return l.fail(c18LsNo, "on one path one side is %s%s while the other is %s%s: a step applied to one slice has no counterpart on the other", l.show(a), l.at(a), l.show(b), l.at(b))
+}
+
+// c18LsDefDominates: v is defined (once) before every entry into block blk.
+func c18LsDefDominates(v ssa.Value, blk *ssa.BasicBlock) bool {
+	switch x := v.(type) {
+	case *ssa.Const, *ssa.Parameter:
+		return true
+	case ssa.Instruction:
+		return x.Block() != nil && x.Block() != blk && x.Block().Dominates(blk)
+	}
+	return false
+}
+
+func c18LsAppend(c *ssa.Call) ([]ssa.Value, bool) {
+	if b, ok := c.Call.Value.(*ssa.Builtin); ok && b.Name() == "append" && len(c.Call.Args) == 2 {
+		return c.Call.Args, true
+	}
+	return nil, false
+}
+
+// c18LsAppendCount: number of elements of the variadic part of an append (slice of a fresh
+// varargs array).
+func c18LsAppendCount(v ssa.Value) (int64, bool) {
+	sl, ok := v.(*ssa.Slice)
+	if !ok || sl.Low != nil || sl.High != nil {
+		return 0, false
+	}
+	al, ok := sl.X.(*ssa.Alloc)
+	if !ok {
+		return 0, false
+	}
+	pt, ok := al.Type().Underlying().(*types.Pointer)
+	if !ok {
+		return 0, false
+	}
+	arr, ok := pt.Elem().Underlying().(*types.Array)
+	if !ok {
+		return 0, false
+	}
+	return arr.Len(), true
+}
+
+// eqBound: slice bounds equal; nil low = 0, nil high = len(of the sliced value), which is
+// equal on both sides exactly when the sliced values are aligned (checked by the caller).
+func (l *c18Ls) eqBound(x, y ssa.Value, ofX, ofY ssa.Value) bool {
+	if x == nil && y == nil {
+		return true
+	}
+	isLenOf := func(v ssa.Value, of ssa.Value) bool {
+		if call, ok := v.(*ssa.Call); ok && of != nil {
+			if b, ok := call.Call.Value.(*ssa.Builtin); ok && b.Name() == "len" && len(call.Call.Args) == 1 {
+				return call.Call.Args[0] == of
+			}
+		}
+		return false
+	}
+	if x == nil || y == nil {
+		if ofX == nil { // low bound: nil is 0
+			nz := x
+			if nz == nil {
+				nz = y
+			}
+			cv, ok := constOf(nz)
+			return ok && cv.ExactString() == "0"
+		}
+		return (x == nil && isLenOf(y, ofY)) || (y == nil && isLenOf(x, ofX))
+	}
+	return l.eqVal(x, y)
+}
+
+// eqVal: structural equality of two integer SSA values.
+func (l *c18Ls) eqVal(x, y ssa.Value) bool {
+	if x == y {
+		return true
+	}
+	cx, okx := constOf(x)
+	cy, oky := constOf(y)
+	if okx || oky {
+		return okx && oky && constant.Compare(cx, token.EQL, cy)
+	}
+	switch a := x.(type) {
+	case *ssa.BinOp:
+		b, ok := y.(*ssa.BinOp)
+		return ok && a.Op == b.Op && l.eqVal(a.X, b.X) && l.eqVal(a.Y, b.Y)
+	case *ssa.Convert:
+		b, ok := y.(*ssa.Convert)
+		return ok && types.Identical(a.Type(), b.Type()) && l.eqVal(a.X, b.X)
+	case *ssa.Call:
+		b, ok := y.(*ssa.Call)
+		if !ok {
+			return false
+		}
+		ba, ok1 := a.Call.Value.(*ssa.Builtin)
+		bb, ok2 := b.Call.Value.(*ssa.Builtin)
+		if ok1 && ok2 && ba.Name() == "len" && bb.Name() == "len" && l.assumed != nil {
+			save := l.why
+			r := l.aligned(a.Call.Args[0], b.Call.Args[0]) == c18LsYes
+			if !r {
+				l.why = save
+			}
+			return r
+		}
+	}
+	return false
 }
